@@ -344,7 +344,7 @@ def run(ctx):
 
     lap('pipeline')
     # ---- 4. end to end: the property itself
-    ecases = [gen_e2e(rng, T, i) for i in range(400 if T else 24)]
+    ecases = [gen_e2e(rng, T, i) for i in range(250 if T else 24)]
     io = run_lines(impl, ecases, timeout=6000)
     nfail, refused = 0, 0
     for ln, a in zip(ecases, io):
